@@ -5,7 +5,7 @@ import os
 from .model import AnalysisError
 from .report import VERIF
 from .callgraph import closure
-from .rules import r1_resolve, r2_none, r3_ctor, r9_purity, r4_predicates, r5_arghandler, r6_dispatch, r7_binary, r8_accessors, r_list, r10_args, r11_symbolic, r16_tables, r15_closed, r14_interp, r18_shared, r19_angles, r20_shapes, r21_explog, r22_dualquat, r23_lines
+from .rules import r24_views, r1_resolve, r2_none, r3_ctor, r9_purity, r4_predicates, r5_arghandler, r6_dispatch, r7_binary, r8_accessors, r_list, r10_args, r11_symbolic, r16_tables, r15_closed, r14_interp, r18_shared, r19_angles, r20_shapes, r21_explog, r22_dualquat, r23_lines
 
 _anch = None
 
@@ -42,6 +42,7 @@ def c_dev10n(run):
         if f.module.short not in ('base/animate', 'timing', 'stdlib/collections', 'base/graphics'):
             r10_args.check_option_used(run, f)
             r10_args.check_sibling_options(run, f)
+        r24_views.check_view_overwrite(run, f)
     run.explanation = 'development run of R10n over the whole package'
 
 
@@ -124,6 +125,9 @@ def c07(run):
     for f_ in prog.analysed_functions():
         if f_.module.short not in ('base/animate', 'timing', 'stdlib/collections', 'base/graphics') and any(p_ in ('check', 'tol') for p_ in f_.allparams):
             r10_args.check_option_used(run, f_)
+    # caller data never reaches a construction that skips the check: a transporter (r2t, rt2tr, trinv ...) applied to a raw
+    # parameter is a member only if the parameter is, so it needs a dominating membership test with the check enabled
+    r15_closed.check_unchecked_sites(run, raw_only=True)
     # dual-mode transl / transl2 behind the validating import: reached only with a vector argument
     if r20_shapes.check_dual_mode_calls(run, [f for f in prog.analysed_functions() if f.cls is not None]) < 3:
         run.error('R20: fewer than 3 one-argument transl / transl2 calls in class methods (anchor of the dual-mode rule not found in the current source)')
@@ -223,6 +227,9 @@ def c09(run):
     r7_binary.run_r7(run, helpers=True, dunders=False)
     r8_accessors.run_r8(run)
     r8_accessors.check_accessor_slots(run)
+    if r8_accessors.check_zip_lengths(run, [f for f in prog.analysed_functions() if not f.module.short.startswith(('base/', 'stdlib/'))
+                                            and f.module.short != 'timing']) < 6:
+        run.error('R8z: fewer than 6 two-operand zip pairings found (anchor of the length rule not found in the current source)')
     # the multi-valued inverse is the single-valued inverse of every element (per-element route, or the structured inverse written
     # on the stacked array)
     r16_tables.check_routes(run, [r for r in r16_tables.ROUTES_C02 if r[0] in ('pose3d:SE3.inv', 'pose2d:SE2.inv', 'pose3d:SO3.inv', 'pose2d:SO2.inv')], rule='R8')
@@ -402,6 +409,8 @@ def c16(run):
     r11_symbolic.check_getvector_dtype(run)
     r11_symbolic.check_allocations(run)
     r11_symbolic.check_assumption_free(run)
+    if r11_symbolic.check_vectorize_kernels(run) < 1:
+        run.error('R11v: no np.vectorize kernel found (anchor of SMPose.simplify not found in the current source)')
     ms = r11_symbolic.marked(prog)
     r18_shared.check_shared_structure(run)
     r16_tables.check_det(run)
@@ -487,6 +496,7 @@ def _scope_rules(run, pid, r1=True, r2=True, r9=True, generic=True):
         for f in fs:
             if f.key not in seen:
                 r7_binary.check_duplicates(run, f)           # x - x, x == x, atan2(a, a), a paired loop variable that is never used
+                r24_views.check_view_overwrite(run, f)       # a NumPy view read after the storage it looks at was overwritten
                 if f.module.short not in ('base/animate', 'timing', 'stdlib/collections', 'base/graphics'):
                     r10_args.check_option_used(run, f)       # an option (check, unit, tol, twist ...) that is accepted but never read
                     r10_args.check_sibling_options(run, f)   # ... or forwarded in one arm of a case split and dropped in another
@@ -697,6 +707,7 @@ def c06(run):
                              alts=('qqmul(qqmul(P0, pure(P1)), conj(P0))[1:4]',))
     r16_tables._dualquat(run)
     r22_dualquat.check_point_route(run)
+    r16_tables.check_pair_integrity(run, rule='R22')      # (X*Y)*p goes through UnitDualQuaternion(real, dual): the pair is stored as given
     # X.inv() * (X * p) == p: the inverse used by the point laws is the structured inverse, element by element
     r16_tables.check_routes(run, [r for r in r16_tables.ROUTES_C02 if r[0] in ('pose3d:SE3.inv', 'pose2d:SE2.inv', 'pose3d:SO3.inv', 'pose2d:SO2.inv')], rule='R15')
     r16_tables.tables_c02_inverse(run) if hasattr(r16_tables, 'tables_c02_inverse') else None
@@ -738,8 +749,18 @@ def c12(run):
     r16_tables.tables_c12(run)
     r16_tables.check_routes(run, r16_tables.ROUTES_C12)
     r7_binary.check_helper_operand_order(run)
-    r16_tables.check_sign_dependence(run, 'quaternion:Quaternion.log', 's', why='quaternions (s, v) and (-s, v) are different but get the same '
-                                     'logarithm, so exp(log(q)) cannot return q when the scalar part is negative (angle beyond pi/2)')
+    # ... for the log method every quaternion class resolves to (an override in UnitQuaternion is the one unit quaternions use); the
+    # accessors that R16s requires to be the same for q and -q (R, angvec, rpy ...) carry no sign either
+    seen_log = set()
+    for cname_ in ('Quaternion', 'UnitQuaternion'):
+        k_, mem_ = run.prog.lookup_member(run.prog.cls(cname_), 'log')
+        if mem_ is not None and mem_.key not in seen_log:
+            seen_log.add(mem_.key)
+            r16_tables.check_sign_dependence(run, mem_.key, 's', blind=('v', 'norm') + tuple(x.split('.')[-1] for x in r16_tables.DOUBLE_COVER),
+                                             why='quaternions (s, v) and (-s, v) are different but get the same '
+                                             'logarithm, so exp(log(q)) cannot return q when the scalar part is negative (angle beyond pi/2)')
+    if 'quaternion:Quaternion.log' not in seen_log:
+        run.error('R17: Quaternion.log not found in the current source', hard=True)
     _scope_rules(run, 'C12')
     run.floor('R16', 18)
     run.floor('R15', 10)
